@@ -2,6 +2,7 @@ package main
 
 import (
 	"fmt"
+	"go/types"
 	"strings"
 )
 
@@ -15,6 +16,9 @@ func (ex *Exec) guardCheckSlow(st *State, fr *Frame, p PtrVal, write bool) {
 	name := ex.prog.funcName(fr.fn)
 	if strings.Contains(name, ".VH_") || strings.Contains(name, ".vh") || !strings.Contains(name, repoPath) {
 		return
+	}
+	if w, ok := st.watch[p.Obj]; ok {
+		ex.eraser(st, fr, p, write, w)
 	}
 	key := fmt.Sprintf("%d", p.Obj)
 	for i := 0; i <= len(p.Path); i++ {
@@ -83,4 +87,64 @@ func (ex *Exec) guardViolation(st *State, fr *Frame, field, msg string) {
 	}
 	ex.donePending()
 	ex.recordViolation(st, "guard", id, field+" "+msg+" in "+site+" at "+st.where(), model)
+}
+
+// eraser: lockset analysis of a watched object's locations (vhWatch). A location accessed by one goroutine only is
+// exclusive; from the first access by another goroutine on, the set of locks held at every access is intersected;
+// an empty intersection on a location that is written after it became shared is reported. Accesses through
+// sync/atomic are not plain loads/stores and never get here. This is a necessary condition for race freedom under
+// a locking discipline; orderings established by other means (channels, WaitGroup, Once) are not seen, which is why
+// only objects whose documented discipline is "fields under the mutex" are watched.
+func (ex *Exec) eraser(st *State, fr *Frame, p PtrVal, write bool, w watchDecl) {
+	if len(p.Path) == 0 {
+		return
+	}
+	loc := "er:" + p.Key()
+	var rec eraserRec
+	if v, ok := st.side[loc]; ok {
+		rec = v.(eraserRec)
+	}
+	if rec.done {
+		return
+	}
+	cur := st.cur
+	held := st.co().held
+	switch rec.state {
+	case 0:
+		rec = eraserRec{state: 1, first: cur}
+	case 1:
+		if cur == rec.first {
+			return
+		}
+		rec.state = 2
+		if write {
+			rec.state = 3
+		}
+		rec.locks = map[string]bool{}
+		for k := range held {
+			rec.locks[k] = true
+		}
+	default:
+		n := map[string]bool{}
+		for k := range rec.locks {
+			if held[k] > 0 {
+				n[k] = true
+			}
+		}
+		rec.locks = n
+		if write {
+			rec.state = 3
+		}
+	}
+	if rec.state == 3 && len(rec.locks) == 0 {
+		rec.done = true
+		st.side[loc] = rec
+		field := fmt.Sprintf("%s.#%d", w.name, p.Path[0])
+		if stt, ok := w.t.Underlying().(*types.Struct); ok && int(p.Path[0]) < stt.NumFields() {
+			field = w.name + "." + stt.Field(int(p.Path[0])).Name()
+		}
+		ex.guardViolation(st, fr, field, "is accessed by several goroutines, written by at least one, and no lock is held at all of these accesses (lockset empty at this "+rw(write)+")")
+		return
+	}
+	st.side[loc] = rec
 }
